@@ -270,12 +270,14 @@ def selftest_units(tier, seed):
 
 # ---------------------------------------------------------------- one simulated session
 
-def norm(v):
+def norm(v, depth=0):
     """What a value looks like after a MessagePack round trip: tuples arrive as lists."""
+    if depth > 40:
+        return '<nested deeper than 40 levels or cyclic>'
     if isinstance(v, (list, tuple)):
-        return [norm(x) for x in v]
+        return [norm(x, depth + 1) for x in v]
     if isinstance(v, dict):
-        return {k: norm(x) for k, x in v.items()}
+        return {k: norm(x, depth + 1) for k, x in v.items()}
     return v
 
 
